@@ -134,6 +134,8 @@ type Method struct {
 	HTTP  *HTTPMap          `json:"http,omitempty"`
 	GRPC  *GRPCMap          `json:"grpc,omitempty"`
 	Meta  [][]string        `json:"meta,omitempty"`
+	// Stream: "" | payload (client streaming) | result (server streaming) | both
+	Stream string `json:"stream,omitempty"`
 }
 
 // Mapped is "attribute[:wire name]".
@@ -184,6 +186,11 @@ type ErrResp struct {
 type GRPCMap struct {
 	Metadata []Mapped `json:"metadata,omitempty"`
 	Code     int      `json:"code,omitempty"`
+	// Message lists the payload attributes explicitly (Message(func(){ Attribute(...) }))
+	Message []string `json:"message,omitempty"`
+	// Headers / Trailers of the response (result attributes)
+	Headers  []Mapped `json:"headers,omitempty"`
+	Trailers []Mapped `json:"trailers,omitempty"`
 }
 
 // RawCall is a DSL call placed somewhere it may not belong (C12).
